@@ -33,6 +33,8 @@ QUERIES = {
     "q_agg": "SELECT ?p (COUNT(*) AS ?n) WHERE { ?s ?p ?o } GROUP BY ?p ORDER BY ?p",
     "q_path": "SELECT ?a ?b WHERE { ?a (<urn:x:p1>|<urn:x:p2>)* ?b }",
     "q_from": "SELECT * FROM <urn:g:g1> WHERE { ?s ?p ?o }",
+    "q_from2": "SELECT * FROM <urn:g:g1> FROM <urn:g:g2> WHERE { ?s ?p ?o }",
+    "q_from3": "SELECT * FROM <urn:g:g2> FROM <urn:g:g1> FROM NAMED <urn:g:g1> WHERE { { ?s ?p ?o } UNION { GRAPH ?g { ?s ?p ?o } } }",
     "q_from_named": "SELECT * FROM NAMED <urn:g:g1> WHERE { GRAPH ?g { ?s ?p ?o } }",
     "q_graph_absent": "SELECT * WHERE { GRAPH <urn:g:absent> { ?s ?p ?o } }",
     "q_graph_absent_ask": "ASK { GRAPH <urn:g:absent2> { ?s ?p ?o } }",
@@ -46,7 +48,7 @@ G_FORMATS = ["nt", "turtle", "longturtle", "n3", "xml", "pretty-xml", "json-ld",
 KINDS = ([("ser_ds", f) for f in DS_FORMATS] + [("ser_view", f) for f in G_FORMATS] + [("query_ds", q) for q in QUERIES]
          + [("query_view", q) for q in ("q_select", "q_ask", "q_construct", "q_describe", "q_optional", "q_agg", "q_path", "q_exists")]
          + [(k, "") for k in ("iso", "to_iso", "canon", "diff", "iter", "slice", "value", "items", "cbd", "all_nodes", "connected",
-                              "graphs", "quads", "len", "contains", "resource", "path_eval", "triples_choices", "subjects", "contexts_of", "get_graph")])
+                              "graphs", "quads", "len", "contains", "resource", "path_eval", "triples_choices", "subjects", "contexts_of", "get_graph", "collection")])
 
 
 def do_read(w, kind, arg, target):
@@ -86,6 +88,16 @@ def do_read(w, kind, arg, target):
         return (repr(view.value(s1, p1, any=True)), repr(view.value(predicate=p1, object=o1, any=True)), repr(ds.value(s1, p1, any=True)))
     if kind == "items":
         return [repr(x) for x in view.items(s1)]
+    if kind == "collection":
+        # reading an rdf:List through Graph.collection() on the view and on the dataset (union) view
+        node = v.term("s1")
+        out = [str(x) for x in view.collection(node)]
+        if ds is not None:
+            try:
+                out += [str(x) for x in ds.collection(node)]
+            except Exception as ex:     # noqa: BLE001
+                out.append(type(ex).__name__)
+        return out
     if kind == "cbd":
         return sorted(map(repr, view.cbd(s1)))
     if kind == "all_nodes":
